@@ -77,14 +77,14 @@ def retry_worker(case):
     keep = False
     B = core.unb64(case["B"])
     T0 = core.unb64(case["T0"])
-    cid = core.h8([case["name"], "retry", case["M"], case["limit"], case["style"], case["boundary"], case["upto"], case["frag"]])
-    stats = {"evaluations": 1, "interrupted_then_retried": 1}
+    cid = core.h8([case["name"], "retry", case["M"], case["limit"], case["style"], case["boundary"], case["upto"], case["frag"], case.get("chain", 0)])
+    stats = {"evaluations": 1, "interrupted_then_retried": 1, "runs_with_application_callbacks_chained": 1 if case.get("chain") else 0}
     try:
         p = zckref.parse(B)
         ext = lambda c: (p.header_len + c["start"], p.header_len + c["start"] + c["comp_len"] - 1)
         missing = [c for c in p.chunks if c["number"] in case["M"] and c["comp_len"] > 0]
         allowed = ",".join("%d-%d" % ext(c) for c in missing) or "0-0"
-        L = ["fopen 1 t.zck rw target", "create 1", "init_read 1 1", "fv 1", "reset_failed 1", "flags 1", "dl_init 0 1",
+        L = (["chain 1"] if case.get("chain") else []) + ["fopen 1 t.zck rw target", "create 1", "init_read 1 1", "fv 1", "reset_failed 1", "flags 1", "dl_init 0 1",
              "range 2 1 %d" % case["limit"], "dl_set_range 0 2", "watch target %s" % allowed,
              "serve 0 2 B.zck %d %s %s upto:%d" % (case["style"], case["frag"], case["boundary"], case["upto"]), "flags 1",
              "clear_error 1", "dl_reset 0", "range 3 1 -1", "dl_set_range 0 3",
@@ -106,7 +106,7 @@ def retry_worker(case):
             mid = sv[0].get("delivered", 0) < sv[0].get("resp_len", 0)
             stats["cut_mid_response"] = 1 if mid else 0
             disk = open(os.path.join(cdir, "t.zck"), "rb").read()
-            kind = "multipart" if sv[1]["nranges"] > 1 or case["style"] & 32 else "single"
+            kind = ("multipart" if sv[1]["nranges"] > 1 or case["style"] & 32 else "single") + (":chained" if case.get("chain") else "")
             if ws["oob"]:
                 viol = ("c05:retry:write-outside-missing-extents:%s" % kind, "%s" % rd.first(ev="oob_write"))
             elif sv[1]["rc"] != 1:
@@ -132,14 +132,14 @@ def worker(case):
     keep = False
     B = core.unb64(case["B"])
     T0 = core.unb64(case["T0"])
-    cid = core.h8([case["name"], case["M"], case["limit"], case["style"], case["boundary"], case["mode"], case["corrupt"]])
+    cid = core.h8([case["name"], case["M"], case["limit"], case["style"], case["boundary"], case["mode"], case["corrupt"], case.get("chain", 0)])
     stats = {"evaluations": 0}
     try:
         p = zckref.parse(B)
         ext = lambda c: (p.header_len + c["start"], p.header_len + c["start"] + c["comp_len"] - 1)
         missing = [c for c in p.chunks if c["number"] in case["M"] and c["comp_len"] > 0]
         allowed = ",".join("%d-%d" % ext(c) for c in missing) or "0-0"
-        script = "sweep t0.bin B.zck %d %d %s %s %s %d\n" % (case["limit"], case["style"], case["boundary"], case["mode"], allowed, case["corrupt"])
+        script = ("chain 1\n" if case.get("chain") else "") + "sweep t0.bin B.zck %d %d %s %s %s %d\n" % (case["limit"], case["style"], case["boundary"], case["mode"], allowed, case["corrupt"])
         rd = core.run_zh(case["zh"], cdir, script, {"t0.bin": T0, "B.zck": B}, cpu=300, name="sw")
         if rd.timed_out and not rd.cpu_exceeded:
             return core.verdict(cid, "inconclusive", detail="watchdog", case=case)
@@ -171,7 +171,7 @@ def worker(case):
             if pos != b + 1:
                 okreq = False
         multipart = len(ranges) > 1 or bool(case["style"] & 32)
-        kind = "multipart" if multipart else "single"
+        kind = ("multipart" if multipart else "single") + (":chained" if case.get("chain") else "")
         if not okreq or not covered:
             return core.verdict(cid, "inconclusive", detail="request %r is not a prefix tiling of the missing chunks (C10's business)" % req["ranges"], case=case)
         # --- model
@@ -200,6 +200,11 @@ def worker(case):
         stats["evaluations"] = sw["iterations"]
         stats["fragmentations_" + case["mode"].split(":")[0]] = sw["iterations"]
         stats["responses"] = 1
+        if case.get("chain"):
+            stats["runs_with_application_callbacks_chained"] = sw["iterations"]
+            stats["application_callback_invocations"] = sw.get("chain_calls", 0)
+            if sw.get("chain") != 1 or not sw.get("chain_calls"):
+                return core.verdict(cid, "inconclusive", detail="chained callbacks were requested but never invoked: %s" % sw, case=case)
         stats["response_kinds"] = [kind + ":" + case["bkind"] + (":corrupt" if bad is not None else "")]
         body = rd.first(ev="response_body")
         if body and multipart:
@@ -279,14 +284,14 @@ class C05(core.Check):
                     last_ok = e
             return bytes(d[:last_ok]) if truncate else bytes(d)
 
-        def add(name, B, M, limit, style, bkind, mode, corrupt=-1, truncate=False):
+        def add(name, B, M, limit, style, bkind, mode, corrupt=-1, truncate=False, chain=0):
             p = zckref.parse(B)
             M = sorted(M)
             bd = make_boundary(r, bkind)
             if any(ch not in TOKEN_SAFE for ch in bd):
                 style |= 1  # must be quoted in the header line
             out.append({"name": name, "B": core.b64(B), "T0": core.b64(t0_for(B, p, set(M), truncate)), "M": M, "limit": limit, "style": style,
-                        "boundary": bd, "bkind": bkind, "mode": mode, "corrupt": corrupt, "zh": ctx["zh"]})
+                        "boundary": bd, "bkind": bkind, "mode": mode, "corrupt": corrupt, "chain": chain, "zh": ctx["zh"]})
 
         # --- exhaustive 2-cut on small responses (split by first cut over several processes)
         nsmall = 6 if q else 40
@@ -299,16 +304,18 @@ class C05(core.Check):
             bk = r.choice(["plain", "hex", "rfc", "dashes"]) if i % 3 else "rfc"
             limit = r.choice([-1, 1, 2, 3])
             step = 40
+            ch = 1 if i % 3 == 2 else 0   # the application's own callbacks hung behind the library's (zck_dl_set_write_cb / _header_cb)
             # response length unknown before running: generous upper bound, empty slices end immediately
             for lo in range(1, 420, step):
-                add("s%d" % i, B, M, limit, style, bk, "cuts2:%d:%d" % (lo, lo + step))
-            add("s%d" % i, B, M, limit, style, bk, "cuts1")
-            add("s%d" % i, B, M, limit, style, bk, "list")
+                add("s%d" % i, B, M, limit, style, bk, "cuts2:%d:%d" % (lo, lo + step), chain=ch)
+            add("s%d" % i, B, M, limit, style, bk, "cuts1", chain=ch)
+            add("s%d" % i, B, M, limit, style, bk, "list", chain=ch)
             # corruption of first / middle / last byte of one requested chunk, 1-cut exhaustive + list
             ck = p.chunks[sorted(M)[0]]
             a = p.header_len + ck["start"]
             for off in sorted(set([a, a + ck["comp_len"] // 2, a + ck["comp_len"] - 1])):
-                add("s%d" % i, B, M, limit, style, bk, "cuts1", corrupt=off)
+                add("s%d" % i, B, M, limit, style, bk, "cuts1", corrupt=off, chain=ch)
+                add("s%d" % i, B, M, limit, style, bk, "list", corrupt=off, chain=1 - ch)
         self.exhaustive = True
         # --- all subsets M for one small file, list + 1-cut
         B = base(5 if q else 6, 3, 12)
@@ -316,11 +323,11 @@ class C05(core.Check):
         ids = [c["number"] for c in p.chunks if c["comp_len"] > 0]
         for mask in range(1, 1 << len(ids)):
             M = {ids[k] for k in range(len(ids)) if mask >> k & 1}
-            add("subsets", B, M, r.choice([-1, 1, 2, 7]), r.choice([0, 1, 4, 32]), r.choice(["plain", "rfc"]), "cuts1" if mask % 4 == 0 else "list")
+            add("subsets", B, M, r.choice([-1, 1, 2, 7]), r.choice([0, 1, 4, 32]), r.choice(["plain", "rfc"]), "cuts1" if mask % 4 == 0 else "list", chain=(mask >> 1) & 1)
             # one payload byte of ANY requested chunk corrupted (not only the first): whole body in one callback, fixed sizes, every 1-cut
             ck = p.chunks[r.choice(sorted(M))]
             off = p.header_len + ck["start"] + r.randrange(ck["comp_len"])
-            add("subsets", B, M, r.choice([-1, -1, 1, 2]), r.choice([0, 0, 1, 4, 32]), r.choice(["plain", "rfc"]), "list" if mask % 3 else "cuts1", corrupt=off)
+            add("subsets", B, M, r.choice([-1, -1, 1, 2]), r.choice([0, 0, 1, 4, 32]), r.choice(["plain", "rfc"]), "list" if mask % 3 else "cuts1", corrupt=off, chain=mask & 1)
         # --- a transfer that dies mid-way, then zck_dl_reset and a complete retry on the same zckDL
         for i in range(40 if q else 600):
             n = r.choice([4, 8, 20])
@@ -334,7 +341,7 @@ class C05(core.Check):
                 style |= 1
             for upto in r.sample([1, 3, 17, 60, 150, 333, 700, 1500, 4000], 3):
                 out.append({"retry": True, "name": "retry%d" % i, "B": core.b64(B), "T0": core.b64(t0_for(B, p, set(M))), "M": M, "limit": r.choice([-1, 1, 2, 3]),
-                            "style": style, "boundary": bd, "upto": upto,
+                            "style": style, "boundary": bd, "upto": upto, "chain": i % 2,
                             # (a 33 KB header field in 1-byte callbacks is quadratic re-scanning, not a hang - Corrections 3: keep those coarse)
                             "frag": r.choice(["all", "n:1000", "n:16384"]) if style & 64 else r.choice(["all", "n:1", "n:7", "n:1000"]), "zh": ctx["zh"]})
         # --- larger files: random partitions, truncated targets, many ranges
@@ -350,6 +357,6 @@ class C05(core.Check):
                 ck = p.chunks[min(M)]
                 corrupt = p.header_len + ck["start"] + r.randrange(ck["comp_len"])
             add("L%d" % i, B, M, r.choice([-1, 1, 2, 3, 7, 127, 255]), r.choice([0, 1, 2, 4, 8, 16, 7, 32] + ([64, 96, 68, 64] if n == 8 else [])), r.choice(["plain", "hex", "rfc", "dashes"]),
-                "rand:%d:%d" % (40 if q else 300, r.randrange(1 << 30)), corrupt=corrupt, truncate=(i % 3 == 0))
-            add("L%d" % i, B, M, r.choice([-1, 2, 255]), r.choice([0, 1, 4]), r.choice(["plain", "rfc"]), "list", truncate=(i % 3 == 0))
+                "rand:%d:%d" % (40 if q else 300, r.randrange(1 << 30)), corrupt=corrupt, truncate=(i % 3 == 0), chain=(i >> 1) & 1)
+            add("L%d" % i, B, M, r.choice([-1, 2, 255]), r.choice([0, 1, 4]), r.choice(["plain", "rfc"]), "list", truncate=(i % 3 == 0), chain=i & 1)
         return out
